@@ -29,6 +29,7 @@ def generate(rng, tier):
     cases = []
     for _ in range(170 if tier == "quick" else 4000):
         S = rng.choice(["Q", "F"])
+        oob = False
         L1, LN = gen.LAYS_1D, gen.LAYS_ND
         kind = rng.choice(["lin", "spl", "bil"])
         qrank = rng.choice([0, 1, 1, 2, 3])
@@ -48,6 +49,11 @@ def generate(rng, tier):
                 qx = [rng.uniform(xs[0], xs[-1]) for _ in range(nq)]; qy = [rng.uniform(ys[0], ys[-1]) for _ in range(nq)]
             dtag, qtag = gen.pick_dims(rng, len(shape), qrank)
             ent = rng.choice(["array", "ainto", "single", "into"])
+            if nq >= 2 and ent in ("array", "ainto") and rng.random() < 0.3:
+                # a failing call: two different rejected elements; which one the error names must not depend on any layout
+                p1, p2 = rng.sample(range(nq), 2)
+                qx[p1] = xs[-1] + (xs[-1] - xs[0]); qy[p2] = ys[0] - (ys[-1] - ys[0]) * 2
+                oob = True
             if ent == "array":
                 e = e_array(S, qshape, qx, qy, qtag=qtag, lay=rng.choice(LN))
             elif ent == "ainto":
@@ -76,6 +82,10 @@ def generate(rng, tier):
                 strat = ("lin", False)
             dtag, qtag = gen.pick_dims(rng, len(shape), qrank)
             ent = rng.choice(["array", "ainto", "single", "into"])
+            if nq >= 2 and ent in ("array", "ainto") and rng.random() < 0.3:
+                p1, p2 = rng.sample(range(nq), 2)
+                qs[p1] = xs[-1] + (xs[-1] - xs[0]); qs[p2] = xs[0] - (xs[-1] - xs[0]) * 2
+                oob = True
             if ent == "array":
                 e = e_array(S, qshape, qs, qtag=qtag, lay=rng.choice(LN))
             elif ent == "ainto":
@@ -85,7 +95,39 @@ def generate(rng, tier):
             else:
                 e = e_into(S, qs[0], trailing, rng.choice(LN))
             line = i1_line(S, xs, shape, flat, strat, e, dtag=dtag, xlay=rng.choice(L1), dlay=rng.choice(LN))
-        cases.append({"line": line, "meta": {}})
+        cases.append({"line": line, "meta": {"oob": oob}})
+    # failing calls on scalar-lane data with rank-2 queries in non-C layouts: the element at (0,1) and the one at (1,0) are both
+    # rejected, with different values; row-major order reaches (0,1) first, column-major order would reach (1,0) first
+    for _ in range(16 if tier == "quick" else 300):
+        S = rng.choice(["Q", "F"])
+        qshape = rng.choice([[2, 3], [3, 2], [2, 2]])
+        nq = gen.shape_size(qshape)
+        lay_q, lay_b = rng.choice(["f", "f", "perm", "rev"]), rng.choice(["f", "f", "s2", "perm", "c"])
+        ent = rng.choice(["array", "ainto"])
+        i01, i10 = 1, qshape[1]
+        if rng.random() < 0.5:
+            n = 4
+            xs = gen.axis_q(rng, n) if S == "Q" else gen.axis_f(rng, n, "random")
+            flat = gen.vals_q(rng, n) if S == "Q" else [rng.uniform(-2, 2) for _ in range(n)]
+            span = xs[-1] - xs[0]
+            qs = [xs[0] + span / 2 for _ in range(nq)]
+            qs[i01], qs[i10] = xs[-1] + span, xs[0] - span * 2
+            e = e_array(S, qshape, qs, qtag=rng.choice(["sta", "dyn"]), lay=lay_q) if ent == "array" else \
+                e_ainto(S, qshape, qshape, qs, qtag=rng.choice(["sta", "dyn"]), lay=lay_q, blay=lay_b)
+            line = i1_line(S, xs, [n], flat, ("lin", False), e, dtag=rng.choice(["sta", "dyn"]))
+        else:
+            nx, ny = 3, 3
+            xs = gen.axis_q(rng, nx) if S == "Q" else gen.axis_f(rng, nx, "random")
+            ys = gen.axis_q(rng, ny) if S == "Q" else gen.axis_f(rng, ny, "uniform")
+            flat = gen.vals_q(rng, nx * ny) if S == "Q" else [rng.uniform(-2, 2) for _ in range(nx * ny)]
+            sx, sy = xs[-1] - xs[0], ys[-1] - ys[0]
+            qx = [xs[0] + sx / 2 for _ in range(nq)]; qy = [ys[0] + sy / 2 for _ in range(nq)]
+            qx[i01] = xs[-1] + sx
+            qy[i10] = ys[0] - sy * 2
+            e = e_array(S, qshape, qx, qy, qtag=rng.choice(["sta", "dyn"]), lay=lay_q) if ent == "array" else \
+                e_ainto(S, qshape, qshape, qx, qy, qtag=rng.choice(["sta", "dyn"]), lay=lay_q, blay=lay_b)
+            line = i2_line(S, xs, ys, [nx, ny], flat, False, e, dtag=rng.choice(["sta", "dyn"]))
+        cases.append({"line": line, "meta": {"oob": True}})
     return cases
 
 
@@ -94,6 +136,8 @@ def nontrivial(case, res):
 
 
 def oracle(case, res):
+    if case["meta"].get("oob"):
+        return None if res.kind == "oob" else f"a batch with rejected elements must return OutOfBounds whatever the layout, got {res.raw[:80]}"
     if res.kind != "ok":
         return f"in-range query with correctly shaped arguments must be answered whatever the layout, got {res.raw[:80]}"
     if res.extra:
